@@ -42,7 +42,7 @@ RuleDay(day, y) ==
 \* UTC instant at which a rule fires in year y, given the offset in force before the switch
 SwitchAt(rule, y, offBefore) == TNorm(RuleDay(rule.day, y), rule.time - offBefore)
 
-RuleOffset(f, ts) ==
+RuleOffsetIn(f, ts) ==
   IF f.kind = "fixed" THEN f.off
   ELSE LET y == YearOf(ts[1])
            dstStart == SwitchAt(f.s, y, f.std)
@@ -50,6 +50,15 @@ RuleOffset(f, ts) ==
        IN IF TLt(dstStart, dstEnd)
           THEN (IF TLe(dstStart, ts) /\ TLt(ts, dstEnd) THEN f.dst ELSE f.std)
           ELSE (IF TLe(dstEnd, ts) /\ TLt(ts, dstStart) THEN f.std ELSE f.dst)
+
+\* The Gregorian calendar repeats every 400 years = 146 097 days = 20 871 weeks, so a rule yields the same
+\* offset 146 097 days earlier or later.  In the first and the last year of the 32-bit day range some switch-over
+\* days are not representable day numbers: the rule is evaluated one period closer to 0001-01-01 there.
+\* (Gen_TZ checks the periodicity of RuleOffsetIn on every synthesized footer.)
+RuleOffset(f, ts) ==
+  IF ts[1] > MaxDn - 1000 THEN RuleOffsetIn(f, <<ts[1] - DaysPerEra, ts[2]>>)
+  ELSE IF ts[1] < MinDn + 1000 THEN RuleOffsetIn(f, <<ts[1] + DaysPerEra, ts[2]>>)
+  ELSE RuleOffsetIn(f, ts)
 
 RECURSIVE LastLE(_, _, _, _)
 \* index of the latest transition at or before ts, by bisection; requires trans[lo].t <= ts
